@@ -37,6 +37,7 @@ import flow
 import mockca
 import tacdrun
 import vlib
+from ext import sched_c20
 
 TOK_DIR = ".well-known/acme-challenge"
 SUN_PATH_MAX = 107
@@ -204,6 +205,9 @@ def widen(ctx, plain):
             add(group=g, ident="пример.Test", git=True)
     # (6) the 79 character name in the unix group (socket root short enough for sun_path)
     add(group="tls-alpn-01-tacd-unix", ident=LONG_IDENT, roots="short-sock")
+    # (7) the CA's connection schedule: several vantage points connected at once, handshakes out of accept order,
+    # a silent probe kept open, finished connections kept open (ext/sched_c20.py)
+    sched_c20.widen(ctx, add)
     return out
 
 
@@ -425,11 +429,15 @@ def _run_ext(sc, d, helper, tacd_dir, cleanup):
             else:
                 digest = hashlib.sha256(ka.encode()).hexdigest()
                 obs["expected"] = "0420" + digest
-                for v in range(vantage):
+                for v in range(0 if sc.get("schedule") else vantage):
                     if v:
                         time.sleep(0.35)
                     # every other vantage point / CA speaks TLS 1.2 at most
                     looks.append(look_tls(pl["listen"], a, digest, 240 if v == 0 else 5, (sc["idx"] + v) % 2 == 1))
+                if sc.get("schedule"):
+                    # connections that are open at the same time (instead of one connect-handshake-close at a time)
+                    looks = sched_c20.validate(pl["listen"], a, digest, sc["schedule"], helper,
+                                               lambda v: (sc["idx"] + v) % 2 == 1)
                 obs["first_try_ok"] = looks[0].get("first_try_ok")
             bad = [x for x in looks if not x["validated"]]
             shown = (bad or looks)[0 if bad else -1]
@@ -645,12 +653,14 @@ def observe(ctx, results):
                     ctx.count("responder:first-try-" + ("ok" if i["challenge"]["first_try_ok"] else "late"))
             ctx.count("validation:inside-challenge-post")
             ctx.count("vantage-points:1")
+            sched_c20.count(ctx, sc)
             judged.append(r)
             continue
         asy = sc.get("async") or {}
         ctx.count("validation:" + ("after-%d-polls" % asy["after_polls"] if asy.get("after_polls") else
                                     "delayed-thread" if asy.get("delay_s") else "inside-challenge-post"))
         ctx.count("vantage-points:%d" % sc.get("vantage", 1))
+        sched_c20.count(ctx, sc)
         for key in ("restart_after", "stale", "roots", "envspec"):
             if sc.get(key):
                 ctx.count("%s:%s" % (key, sc[key] if isinstance(sc[key], str) else ",".join(str(x) for x in sc[key])))
